@@ -9,7 +9,7 @@ import (
 )
 
 // genFillDraws: every math/rand draw of the four PacketFiller.Fill bodies, as plain data:
-// (package, header field, conversion type, base, n) for `Field: T(base + rand.Intn(n))`, and
+// (package, header field, conversion type, base, n) for `Field: T(base + rand.Intn(n))` (either order, base optional), and
 // (package, field, "uint32", 0, 2^32) for `Field: rand.Uint32()`.  A draw of any other shape, or a
 // `rand.` call that is not the value of a header field, is a translator problem.  Props/C05 decides
 // that the table is the advertised one (IP id 1..65535, source port 32768..60999).
@@ -57,14 +57,24 @@ func genFillDraws() {
 					problem("%s Fill: draw for %s has shape %q", pkg, field, src(kv.Value))
 					continue
 				}
-				sum, ok := conv.Args[0].(*ast.BinaryExpr)
-				if !ok || sum.Op != token.ADD {
-					problem("%s Fill: draw for %s has shape %q", pkg, field, src(kv.Value))
-					continue
+				// base + rand.Intn(n), rand.Intn(n) + base, or rand.Intn(n) alone
+				var base int64
+				var call *ast.CallExpr
+				switch e := conv.Args[0].(type) {
+				case *ast.CallExpr:
+					call = e
+				case *ast.BinaryExpr:
+					if e.Op == token.ADD {
+						if b, ok := constInt(e.X); ok {
+							base = b
+							call, _ = e.Y.(*ast.CallExpr)
+						} else if b, ok := constInt(e.Y); ok {
+							base = b
+							call, _ = e.X.(*ast.CallExpr)
+						}
+					}
 				}
-				base, ok1 := constInt(sum.X)
-				call, ok2 := sum.Y.(*ast.CallExpr)
-				if !ok1 || !ok2 || src(call.Fun) != "rand.Intn" || len(call.Args) != 1 {
+				if call == nil || src(call.Fun) != "rand.Intn" || len(call.Args) != 1 {
 					problem("%s Fill: draw for %s has shape %q", pkg, field, src(kv.Value))
 					continue
 				}
